@@ -568,6 +568,26 @@ def c01_targeted(r):
     return lines
 
 
+def stats_limit_lines(toks):
+    """a chain started from a genesis whose totals sit at the limits of their types: the statistics update is refused (and
+    swallowed); the transfer itself must go through completely — fees paid, coin forwarded, nothing left behind"""
+    lines, _ = scen.base_setup()
+    tok = toks[0][0]
+    big = 2 ** 256 - 1
+    fee = [fee_action([(U[2], "b", 100), (U[3], "a", 7)])]
+    g = "pp=[];pcc=[];pa=[];params=0;amts=[1|%s|4|%s|%s|%d|%d,1|%s|2|%s|%s|%d|7,1|%s|3|%s|%s|%d|%d];cnts=[1|%s|4|%s|%d,1|%s|2|%s|5]" % (
+        hx("channel-0"), hx("noble"), hx("uusdc"), big, big - 5, hx("channel-0"), hx("0"), hx("uusdc"), big - 999,
+        hx("channel-0"), hx("1"), hx("uusdc"), big - 1, big - 1, hx("channel-0"), hx("noble"), 2 ** 64 - 1, hx("channel-0"), hx("0"))
+    lines.append("genload " + g)
+    for op in ("recv", "recvh"):
+        lines += [orb_pkt(op, 1000, int_fwd(U[1])), orb_pkt(op, 1000, int_fwd(U[1]), fee), orb_pkt(op, 6, int_fwd(U[1])),
+                  orb_pkt(op, 999, cctp_fwd(domain=0)), orb_pkt(op, 10 ** 6, cctp_fwd(domain=0), fee),
+                  orb_pkt(op, 10 ** 6, hyp_fwd(tok, domain=1), fee), orb_pkt(op, 10 ** 6, hyp_fwd(tok, domain=1)),
+                  orb_pkt(op, 1000, int_fwd(U[1]), fee, dst_chan="channel-1")]
+    lines.append("export")
+    return lines
+
+
 @prop
 class C01(Base):
     id = "C01"
@@ -578,7 +598,8 @@ class C01(Base):
         f = {"recv": ["ack", "bal", "mv"], "recvh": ["ack", "bal"]}
         _, toks = scen.base_setup()
         sts = [Stream("S3-receiver-grid", c01_targeted(Rng(seed * 1000 + 1)), fields=f, oracle=c01_oracle),
-               Stream("S3-bridge-refusals", c03_natural_lines(Rng(seed), toks), fields=f, oracle=c01_oracle)]
+               Stream("S3-bridge-refusals", c03_natural_lines(Rng(seed), toks), fields=f, oracle=c01_oracle),
+               Stream("S3-statistics-at-the-limit", stats_limit_lines(toks), fields=f, oracle=c01_oracle)]
         sts += history_stream("S3-history", 1, tier, seed, 150, 600, f, c01_oracle)
         return sts
 
@@ -815,7 +836,8 @@ class C02(Base):
         f = {"recv": ["ack", "bal", "sup", "mv"], "recvh": ["ack", "bal", "sup"]}
         _, toks = scen.base_setup()
         return history_stream("S3-ledger", 2, tier, seed, 200, 700, f, c02_oracle, p_admin=6, p_deposit=10, p_query=0, p_reimport=0) + \
-            [Stream("S3-bridge-refusals", c03_natural_lines(Rng(seed), toks), fields=f, oracle=lambda st: c02_oracle(st) + c01_oracle(st))]
+            [Stream("S3-bridge-refusals", c03_natural_lines(Rng(seed), toks), fields=f, oracle=lambda st: c02_oracle(st) + c01_oracle(st)),
+             Stream("S3-statistics-at-the-limit", stats_limit_lines(toks), fields=f, oracle=lambda st: c02_oracle(st) + c01_oracle(st))]
 
 
 # ----------------------------------------------------------------------------------------------- C03
@@ -896,6 +918,23 @@ def c03_oracle(steps):
     return out
 
 
+def c03_panic_lines(toks):
+    """an external module that panics instead of returning an error: the transaction aborts (or the packet is refused) — the
+    panic must never be turned into a success acknowledgement with part of the work done"""
+    lines, _ = scen.base_setup()
+    tok = toks[0][0]
+    for fwd in [cctp_fwd(domain=0), cctp_fwd(domain=1, caller=b"\x05" * 32), int_fwd(U[1]), hyp_fwd(tok, domain=1)]:
+        for acts in (None, [fee_action([(U[2], "b", 100), (U[3], "a", 9)])]):
+            for site in FAULT_SITES:
+                for k in (1, 2):
+                    if site not in ("bank.SendCoins", "event.Emit") and k > 1:
+                        continue
+                    lines.append("deposit %s %s 5" % (hx(ORB_BYTES), hx("uusdc")))
+                    lines.append("fault %s %d panic" % (site, k))
+                    lines.append(orb_pkt("recvh", 10 ** 6, fwd, acts))
+    return lines
+
+
 @prop
 class C03(Base):
     id = "C03"
@@ -906,7 +945,9 @@ class C03(Base):
         _, toks = scen.base_setup()
         f = {"recvh": ["ack", "bal", "sup", "st", "calls"], "recv": ["ack", "bal", "sup", "mv", "st"]}
         return [Stream("S2-fault-enumeration", c03_fault_lines(r, toks, pairs=(tier == "thorough")), fields=f, oracle=c03_oracle),
-                Stream("S3-natural-failures", c03_natural_lines(r, toks), fields=f, oracle=c03_oracle)]
+                Stream("S3-natural-failures", c03_natural_lines(r, toks), fields=f, oracle=c03_oracle),
+                Stream("S3-statistics-at-the-limit", stats_limit_lines(toks), fields=f, oracle=c03_oracle),
+                Stream("S2-panicking-externals", c03_panic_lines(toks), model=False, oracle=c03_oracle, note="implementation only: the model's fault oracle returns errors")]
 
 
 # ----------------------------------------------------------------------------------------------- C05
@@ -1019,6 +1060,14 @@ def c05_lines(r, toks, n):
             fwd = hyp_fwd(tok, domain=r.choice([1, 2]), recipient=r.bytes(32), hook=None, meta=r.choice([None, "0x" + r.bytes(3).hex()]),
                           gas=r.choice([None, 0, 77, 50001]), fee=r.choice([None, ("uusdc", 0), ("uusdc", 13), ("stake", 5)]))
             lines.append(orb_pkt("recvh", amount, fwd, acts, denom=tdenom))
+    # mint recipients and destination callers of every shape (short, long, all zero): the request carries them as written, with the
+    # caller variant of the CCTP message exactly when a caller was given; what CCTP refuses is refused
+    for caller in (b"\x01", b"\x07" * 20, b"\x09" * 31, b"\x0a" * 33, b"\x0b" * 64, bytes(32), bytes(31) + b"\x01", bytes(20)):
+        for op in ("recvh", "recv"):
+            lines.append(orb_pkt(op, 10 ** 6, cctp_fwd(domain=0, mint=r.bytes(32), caller=caller)))
+    for mint in (b"\x01", b"\x07" * 20, b"\x09" * 31, b"\x0a" * 33, bytes(32), bytes(31) + b"\x01", bytes(20)):
+        for op in ("recvh", "recv"):
+            lines.append(orb_pkt(op, 10 ** 6, cctp_fwd(domain=0, mint=mint, caller=r.choice([None, r.bytes(32)]))))
     # every (protocol id, attribute type) combination, symbolic and numeric ids, out of range numbers
     attr_sets = [cctp_fwd(domain=0)["attributes"], int_fwd(U[1])["attributes"], hyp_fwd(tok, domain=1)["attributes"]]
     for pid in PROTO_NAMES + ["PROTOCOL_UNSUPPORTED", -1, 0, 1, 2, 3, 4, 5, 6, 7, 2 ** 31 - 1]:
@@ -1100,10 +1149,22 @@ def c06_lines(r, n):
             for rt in routes:
                 for amt in (10 ** 6, 10001, 7):
                     lines.append(orb_pkt("recvh", amt, rt, acts, denom=r.choice(["uusdc", "uusdc", "uother"])))
+    # coins of the denomination a swap pays out already sit on the orbiter account (they are not swept: the sweep is for the
+    # transferred denomination): the forwarder must send exactly what the last action left, so these transfers are refused
+    for (num, den, out_dn, in_dn) in [(5, 2, "uother", "uusdc"), (1, 1, "uusdc", "uother"), (2, 1, "uother", "uusdc")]:
+        lines.append("swapctl %d %d %s" % (num, den, hx(out_dn)))
+        lines.append("deposit %s %s 7" % (hx(ORB_BYTES), hx(out_dn)))
+        for acts in ([swap_action()], [swap_action(), fee1], [fee1, swap_action()]):
+            for rt in routes:
+                lines.append(orb_pkt("recvh", 10 ** 6, rt, acts, denom=in_dn))
+        # a transfer of that denomination sweeps it again
+        lines.append(orb_pkt("recvh", 1000, int_fwd(U[1]), [], denom=out_dn))
     for _ in range(n):
         num, den, dn = r.choice(rules)
         lines.append("swapctl %d %d %s" % (num, den, hx(dn)))
         acts = r.choice(orders)
+        if r.chance(1, 8):
+            lines.append("deposit %s %s %d" % (hx(ORB_BYTES), hx(dn), r.range(1, 50)))
         lines.append(orb_pkt("recvh", scen.rand_amount(r) % 10 ** 20 + 1, r.choice(routes), acts, denom=r.choice(DENOMS)))
     return lines
 
